@@ -491,26 +491,27 @@ def run(ctx):
     if len(sw) != 1:
         raise Broken("C13.R5: xcm_dns_query_result has no single switch")
     found = {}
-    for s, lab in C.edges(qr, sw[0]):
-        if lab[0] != "case":
-            continue
-        errv = None
-        ret = None
-        b = s
-        for _ in range(4):
-            for e in qr.blocks[b].elems:
-                m = qr.nodes[e]
-                if m["k"] == "bin" and m["op"] == "=" and qr.show(m["l"]) == "errno":
-                    errv = C.const_of(qr, m["r"])
-                if m["k"] == "return" and m.get("sub") is not None:
-                    ret = C.const_of(qr, m["sub"])
-            if ret is not None:
-                break
-            ss = C.succs(qr, b)
-            if len(ss) != 1:
-                break
-            b = ss[0]
-        found[lab[2]] = (errv, ret)
+    exits_by_case = {}
+
+    class CaseExits(S.SeqRule):
+        def user0(s2, fn):
+            return None
+
+        def inline(s2, fn, nid, callee):
+            return False
+
+        def on_branch(s2, fn, st, blk, cond, label):
+            if fn is qr and isinstance(label, tuple) and label[0] == "case":
+                return label[2]
+            return None
+
+        def on_exit(s2, fn, st, ret_nid, ret_cls, top):
+            if top and st.user is not None:
+                e = st.efact
+                exits_by_case.setdefault(st.user, set()).add((e[1] if e and e[0] == "eq" else None, -1 if ret_cls == S.NEG else ret_cls))
+    S.run(CaseExits(P), qr)
+    for cs, outs in exits_by_case.items():
+        found[cs] = next(iter(outs)) if len(outs) == 1 else tuple(sorted(outs, key=str))
     r5.instance("xcm_dns_query_result")
     if found.get("query_state_failed") == (ENOENT, -1):
         r5.ok("a failed/timed-out query answers -1/ENOENT", "switch case")
